@@ -22,12 +22,13 @@ META = {
 }
 
 UNSAFE_OWNERS = {
-    "client::conn::transport::tcp::TcpConnectionAttempt::connect",  # socket2 -> std -> tokio conversion of the connecting socket (fn connect)
-    "client::conn::transport::tcp::connect",
-    "<bridge::io::TokioIo as hyper::rt::Read>::poll_read",
-    "<bridge::io::TokioIo as tokio::io::AsyncRead>::poll_read",
-    "<rewind::Rewind as hyper::rt::Read>::poll_read",               # remaining() / put_slice() helpers over ReadBufCursor
-    "<server::conn::auto::ReadVersion as futures_core::Future>::poll",
+    # owner (see panics.owner_name) -> number of reviewed blocks; fewer is fine (blocks merged / removed), more is new unsafe code
+    "client::conn::transport::tcp::TcpConnectionAttempt::connect": 1,  # socket2 -> std -> tokio conversion of the connecting socket (fn connect)
+    "client::conn::transport::tcp::connect": 1,
+    "<bridge::io::TokioIo as hyper::rt::Read>::poll_read": 2,
+    "<bridge::io::TokioIo as tokio::io::AsyncRead>::poll_read": 2,
+    "<rewind::Rewind as hyper::rt::Read>::poll_read": 2,               # remaining() / put_slice() helpers over ReadBufCursor
+    "<server::conn::auto::ReadVersion as futures_core::Future>::poll": 1,
 }
 
 
@@ -253,6 +254,16 @@ def C18_3(ctx, facts):
     return c08.C08_5(ctx, facts)
 
 
+def C18_6(ctx, facts):
+    """The sniffing half of the rewind buffer: what ReadVersion consumed from the socket is what the Rewind replays.  Progress
+    of every successful read is persisted before the next read / return (C08.1) and the Rewind is given the reader's own io and
+    the whole filled buffer (C08.4) - the same obligations C08 needs, claimed here for "no byte lost or duplicated"."""
+    if ctx.cur_config == "client-only" and not facts.by_norm.get("rewind::Rewind::new"):
+        return ctx.ok("ReadVersion|not-compiled", "the sniffing reader is not part of the client-only configuration (declared compile-out)")
+    c08.C08_1(ctx, facts)
+    c08.C08_4(ctx, facts)
+
+
 def C18_5(ctx, facts):
     """Hand-written unsafe stays where it was reviewed.  A block is filed under its owner (panics.owner_name: the named
     function, or - for a private single-caller helper - its caller), so renaming / extracting / merging helpers or merging
@@ -269,6 +280,8 @@ def C18_5(ctx, facts):
     new = sorted(set(got) - expected)
     ctx.check(not new, "unsafe-blocks|inventory", "hand-written unsafe blocks sit only in the reviewed functions (%s)" % sorted(got),
               "unsafe code in a function that was not reviewed: %s" % new)
+    more = {k: v for k, v in got.items() if k in UNSAFE_OWNERS and v > UNSAFE_OWNERS[k]}
+    ctx.check(not more, "unsafe-blocks|no-new-blocks", "no reviewed function gained an unsafe block", "unsafe blocks added to reviewed functions: %s (reviewed: %s)" % (more, {k: UNSAFE_OWNERS[k] for k in more}))
     ctx.floor("unsafe-blocks|count", sum(got.values()), 1, "unsafe blocks")
 
 
@@ -279,4 +292,5 @@ RULES = [
     ("C18.3", C18_3, ["default"]),
     ("C18.4", C18_4, ["default"]),
     ("C18.5", C18_5, ["default", "tls"]),
+    ("C18.6", C18_6, ["default"]),
 ]
